@@ -41,14 +41,15 @@ def b(name, **kw):
 
 
 U1 = [(V, 'u1_search', {}), (V, 'u1_overlap', {}), (V, 'u1_iter', {})]
-U2 = [(V, 'u2_buffer', {}), (V, 'u2_stream', {}), ('kani', 'buffer_free', {})]
+U2 = [(V, 'u2_buffer', {}), (V, 'u2_stream', {}), ('kani', 'buffer_free', {}), (V, 'u1_forward', {})]
 U2R = U2 + [(V, 'u2_replace', {})]
 
 PROPS = {
     'C01': dict(
         components=[(V, 'l1_semantics', {})] + [(V, 'u1_search', {}), (V, 'u1_iter', {}),
-                    sem('lf,ll', 'find,iter,spans'), sem('lf,ll', 'find,iter', families='deep,bytes,many')],
-        level_text='Proof (Verus, unbounded in haystack/span): the real try_find_fwd/try_find_fwd_imp/get_match return the abstract run answer find_spec ("keep the last match, stop at dead state or span end") of any automaton satisfying the Automaton contract AC, and FindIter::next/handle_overlapping_empty_match/search implement the iterator step relation of the statement (restart at previous end, empty-match rule). Bounded stand-in: leftmost-first/longest definition vs the real builders on all small pattern lists.',
+                    sem('lf,ll', 'find,iter,spans'), sem('lf,ll', 'find,iter', families='deep,bytes,many'),
+                    ('kani', 'pattern_raw', {}), b('pc', aspects='find,iter', mode='api')],
+        level_text='Proof (Verus, unbounded in haystack/span): the real try_find_fwd/try_find_fwd_imp/get_match return the abstract run answer find_spec ("keep the last match, stop at dead state or span end") of any automaton satisfying the Automaton contract AC, and FindIter::next/handle_overlapping_empty_match/search implement the iterator step relation of the statement (restart at previous end, empty-match rule). Kani (bounded by length): the confirmation compare of the packed prefilter (is_equal_raw/is_prefix) looks at every byte. Bounded stand-in: leftmost-first/longest definition vs the real builders on all small pattern lists, and with every prefilter variant active (long patterns, near-miss haystacks).',
         level_note=LEMMA_NOTE + COMMON_NOTE,
     ),
     'C02': dict(
@@ -64,13 +65,13 @@ PROPS = {
         level_note=LEMMA_NOTE + COMMON_NOTE,
     ),
     'C04': dict(
-        components=[('kani', 'alphabet_leaf', {}), (V, 'l2_bisim', {})] + U1 + [(V, 'u3_dfa', {}), (V, 'u3_nnfa', {}), (V, 'u3_cnfa', {}), ('kani', 'nnfa_leaf', {}), b('bisim', families='small,abc,ci,wide'),
+        components=[('kani', 'alphabet_leaf', {}), (V, 'l2_bisim', {}), (V, 'u1_forward', {})] + U1 + [(V, 'u3_dfa', {}), (V, 'u3_nnfa', {}), (V, 'u3_cnfa', {}), ('kani', 'nnfa_leaf', {}), b('bisim', families='small,abc,ci,wide'), b('bigkinds'),
                          sem('std,lf,ll', 'find,iter,ov,anch', families='small,abc', cfgs='all', rel='kind', thorough_aspects='find,iter,ov,anch,spans')],
         level_text='Proof (Verus): every search API is a function of the abstract automaton only (find_spec / ov_remaining over AC), so two representations with equal abstract behaviour give equal results for every haystack; the accessors of each representation are proved to compute the abstract transition function of that representation (u3_dfa, u3_nnfa: a densified state answers exactly like its sparse chain; u3_cnfa: the dense, one-transition and sparse encodings all answer c_lookup). Bounded stand-in (exhaustive over haystacks per pattern list): product BFS bisimulation of the reference noncontiguous NFA with every contiguous/DFA/dense-depth/byte-class configuration over all 256 bytes from both start states; top-level vs low-level use compared through the API.',
         level_note=COMMON_NOTE + ' The lifting "bisimilar automata => equal scan / find_spec / ov_list" (L-bisim) is proved in unit l2_bisim; the bisimulation itself is established per pattern list by the bounded product BFS.',
     ),
     'C05': dict(
-        components=[('kani', 'prefilter_leaf', {}), ('kani', 'prefilter_findin', {})] + [(V, 'u1_search', {}), (V, 'u1_overlap', {}),
+        components=[('kani', 'prefilter_leaf', {}), ('kani', 'prefilter_builder', {}), ('kani', 'prefilter_findin', {})] + [(V, 'u1_search', {}), (V, 'u1_overlap', {}),
                     b('pc')],
         level_text='Proof (Verus): under the prefilter coherence contract PC both search loops return exactly what the prefilter-free abstract run returns (prefilter consulted only before the loop and in the start state with no pending match; a candidate is used only if it lies ahead; None ends the search). Bounded stand-in: PC itself (None / PossibleStartOfMatch / Match clauses) executed for every prefilter variant the real builder selects, every span of short haystacks and long haystacks, plus API transparency.',
         level_note=COMMON_NOTE,
@@ -102,8 +103,8 @@ PROPS = {
         level_note=COMMON_NOTE,
     ),
     'C11': dict(
-        components=[('kani', 'prefilter_leaf', {})] + [sem('std,lf,ll', 'find,iter,ov,anch', families='ci', ci='1'), sem('std,lf,ll', 'find,iter,ov', families='deep,wide', ci='1', cfgs='low'), b('pc'), b('bisim', families='ci')],
-        level_text='Proof (Kani, complete over u8): opposite_ascii_case flips exactly A-Z/a-z, is an involution and fixes every other byte (boundary bytes and >= 0x80 included); RareByteOffsets::set keeps the per-byte maximum. Bounded stand-in: definition with ASCII folding vs the real builders (both-case trie edges, byte classes, exact match-list multiplicity, ids as supplied) over letters of both cases, boundary bytes and non-ASCII bytes; prefilter contract with ci on; bisimulation of representations.',
+        components=[('kani', 'prefilter_leaf', {}), ('kani', 'prefilter_builder', {})] + [sem('std,lf,ll', 'find,iter,ov,anch', families='ci', ci='1'), sem('std,lf,ll', 'find,iter,ov', families='deep,wide', ci='1', cfgs='low'), sem('std,lf,ll', 'find,iter,ov', families='cimix', ci='1', cfgs='all'), b('pc'), b('bisim', families='ci')],
+        level_text='Proof (Kani, complete over u8): opposite_ascii_case flips exactly A-Z/a-z, is an involution and fixes every other byte (boundary bytes and >= 0x80 included); RareByteOffsets::set keeps the per-byte maximum; StartBytesBuilder::add puts exactly the first byte and, under ci, its other-case twin into the set (complete); RareBytesBuilder::add records for every byte of a pattern and its twin an offset >= its position and puts some byte of every pattern into the rare set together with its twin (bounded: two patterns of <= 2 and <= 3 symbolic bytes). Bounded stand-in: definition with ASCII folding vs the real builders (both-case trie edges, byte classes, exact match-list multiplicity, ids as supplied) over letters of both cases, boundary bytes and non-ASCII bytes; prefilter contract with ci on; bisimulation of representations.',
         level_note=COMMON_NOTE + ' The trie construction with both-case edges is a builder (bounded stand-in only).',
     ),
     'C12': dict(
@@ -127,7 +128,7 @@ PROPS = {
         level_note=COMMON_NOTE + ' Raw-pointer code (Teddy, is_prefix_raw) is covered by bounded runs only until the Kani unit lands.',
     ),
     'C16': dict(
-        components=[(V, 'u1_search', {}), (V, 'u1_recipe', {}), (V, 'u3_dfa', {}), (V, 'u3_nnfa', {}), (V, 'u3_cnfa', {}), ('kani', 'nnfa_leaf', {}), b('ac', families='small,abc,ci,many,wide'), b('repr'), b('repr-nnfa'), b('repr-cnfa')],
+        components=[(V, 'u1_search', {}), (V, 'u1_recipe', {}), (V, 'u3_dfa', {}), (V, 'u3_nnfa', {}), (V, 'u3_cnfa', {}), (V, 'u1_forward', {}), ('kani', 'nnfa_leaf', {}), b('ac', families='small,abc,ci,many,wide'), b('repr'), b('repr-nnfa'), b('repr-cnfa'), sem('std,lf,ll', 'recipe', families='small,abc,deep', cfgs='low'), b('pc', aspects='recipe', mode='api')],
         level_text='The Automaton contract AC is the hypothesis the proved search loops consume (Verus). The search routine printed in the trait documentation is cut out of the doc comment and proved to return the same find_spec as the built-in search (u1_recipe). For dfa::DFA the accessors themselves are proved (u3_dfa) under the representation invariant dfa_wf: next_state never indexes out of bounds and returns a state id, the dead state is absorbing, is_dead/is_match/is_special/is_start are the id comparisons of the layout, dead and match imply special, match_len/match_pattern index a non-empty list of valid pattern ids, start_state fails exactly for the mode whose start id is the dead state; dfa_wf is executed on the whole table of every real DFA of the bounded space (repr, hook H1). The same for the two NFAs: nfa::contiguous (u3_cnfa: next_state over the packed u32 encoding with its dense / one-transition / sparse states, failure loop, match_len/match_pattern decoders, all index arithmetic and bit operations) and nfa::noncontiguous (u3_nnfa: next_state with its failure loop, follow_transition with the dense row; the three iterator-closure helpers follow_transition_sparse/match_len/match_pattern are outside the Verus subset and are checked against the same definitions by Kani group nnfa_leaf, bounded by table size 5), under cnfa_wf / nnfa_wf, executed on every state x byte of every real NFA of the bounded space (repr-cnfa, repr-nnfa). Bounded stand-in, exhaustive per automaton: every clause of AC evaluated on all reachable states x 256 bytes x both anchoring arguments of every automaton of the bounded pattern space.',
         level_note=COMMON_NOTE,
     ),
@@ -149,8 +150,8 @@ PROPS = {
         level_note=COMMON_NOTE,
     ),
     'C20': dict(
-        components=[('kani', 'primitives_leaf', {})] + [b('meta')],
-        level_text='Proof (Kani, complete over usize): SmallIndex/StateID/PatternID::new fail exactly above their limit and round-trip the value (size limits surface as errors, not panics). Bounded stand-in: shape-diverse pattern collections x option combinations: no panic, requested kind returned, automatic kind rule, metadata mirrors input, ids are input positions.',
+        components=[('kani', 'primitives_leaf', {}), (V, 'u1_forward', {}), (V, 'u3_dfa', {}), (V, 'u3_nnfa', {}), (V, 'u3_cnfa', {})] + [b('meta')],
+        level_text='Proof (Kani, complete over usize): SmallIndex/StateID/PatternID::new fail exactly above their limit and round-trip the value (size limits surface as errors, not panics). Proof (Verus): the metadata accessors patterns_len / pattern_len / min_pattern_len / max_pattern_len / match_kind of the three automaton types return the stored fields (u3_dfa, u3_nnfa, u3_cnfa) and the two forwarding impls (&A, the Arc<dyn> of the front end) forward each accessor to the same-named accessor (u1_forward). Bounded stand-in: shape-diverse pattern collections x option combinations: no panic, requested kind returned, automatic kind rule, metadata mirrors input, ids are input positions.',
         level_note=COMMON_NOTE + ' The builders themselves are beyond Verus/Kani here (bounded stand-in only).',
     ),
 }
